@@ -289,7 +289,11 @@ class UBootShell(shell.Shell, UbootStartup):
                 with self.ch.with_stream(ev, show_prompt=False):
                     out = self.ch.read_until_prompt(prompt=override_prompt)
                     if override_prompt == "\n=> ":
-                        # The overridden prompt ate the trailing '\n'
+                        # The overridden prompt ate the trailing '\n'; of a CRLF
+                        # line ending this leaves a lone '\r' behind which the
+                        # newline normalization could not see anymore.
+                        if out.endswith("\r"):
+                            out = out[:-1]
                         ev.write("\n")
                         out += "\n"
             ev.data["stdout"] = out
